@@ -12,6 +12,7 @@ def new_interp():
     I.models.update(external.make(I))
     I.env_device_count = 1
     stdlib.install(I, PY_BUILTINS)
+    _name_models(I.models)
 
     def div_hook(y):
         # every `/` whose divisor is not syntactically non-zero becomes a safety obligation
@@ -20,3 +21,17 @@ def new_interp():
             I.oblige("safe.div_nonzero", g)
     _PI.DIV_HOOK[0] = div_hook
     return I
+
+
+def _name_models(models, prefix=""):
+    """give every library-model builtin its dotted name so that the worker can report which assumed contracts a proof used"""
+    from .values import Builtin
+    seen = set()
+    def rec(ns, pre, depth):
+        if id(ns) in seen or depth > 3: return
+        seen.add(id(ns))
+        for k, v in list(ns.items()):
+            if isinstance(v, Builtin) and (not v.name or "." not in v.name): v.name = f"{pre}.{k}"
+            elif isinstance(v, dict): rec(v, f"{pre}.{k}" if pre else k, depth + 1)
+    for modname, ns in models.items():
+        if isinstance(ns, dict): rec(ns, modname, 0)
